@@ -117,9 +117,9 @@ def adversarial():
     one('dotdot', '..\n')
     one('huge-int', 'def x := ' + '9' * 400 + '\n')
     one('huge-enum', 'def x := 1E99999999999999999999\n')
-    one('long-line', 'def x := ' + ' + '.join(['1'] * 300) + '\n')
-    one('long-chain-cmp', 'def x := ' + ' < '.join(['1'] * 100) + '\n')
-    one('long-and', 'def x := ' + ' and '.join(['True'] * 120) + '\n')
+    one('long-line', 'def x := ' + ' + '.join(['1'] * 100) + '\n')
+    one('long-chain-cmp', 'def x := ' + ' < '.join(['1'] * 60) + '\n')
+    one('long-and', 'def x := ' + ' and '.join(['True'] * 80) + '\n')
     one('long-file', ''.join(f'def x{i} := {i}\n' for i in range(140)))
     one('long-calls', 'def f(a: Int, b: Int) -> Int => a + b\ndef y0 := 1\n' + ''.join(f'def y{i} := f({i}, y{i - 1})\n' for i in range(1, 120)))
     for d in (8, 16, 24):
